@@ -1,8 +1,21 @@
 (* Trie/RangeProofs.v — lemmas about Trie/Range.v (C09):
-     collapse_inj / hash_root_inj   Merkle injectivity: under collision freedom the root
-                                    hash determines a well-formed trie
+     check_run_spec                 the batch checks = strictly increasing + no deletions (keys of one length)
+     collapse_inj / hash_root_inj   Merkle injectivity: under collision freedom the root hash determines a
+                                    well-formed trie (from C08's decode_enc)
      range_noproof_exact            the no-proof branch accepts exactly the whole trie content
-     (further parts below)
+     pv, ptp_spec, has_right_spec   the partial tree proofToPath builds is a "partial view" of the true trie
+                                    (hash placeholders for hashed subtries); proofToPath / hasRightElement
+                                    on a database that answers genuine hashes with genuine encodings
+     range_empty_* / range_single_* the zero- and one-element branches, sound and complete
+     unset_spec, unset_internal_spec  what unset / unsetInternal remove (unset_removes_interior) and keep
+     unset_sim, unset_internal_sim, insert_sim(_conv), enc_pv
+                                    the partial tree simulates the full trie (unless a hash node is hit) and
+                                    hashes like it
+     unset_pwf, insert_szi, reinsert_full   the full trie stays well formed
+     range_sound_general(_keyed)    the two-edge branch: accepted => the run is the content of [first,last]
+     unset_progress, unset_internal_progress, general_total   no panic value on genuine nodes
+     range_complete_honest_partial  honest responses get as far as the root comparison
+     noproof_empty_key_panics, prefix_key_unset_panics, prefix_key_omission_accepted   witnesses outside the guard
    The hash function is a Section variable with named hypotheses. *)
 From GV Require Import Lib.Tactics Lib.Bytes Trie.Hex Trie.HexProofs Trie.Node Trie.Ops Trie.Hash Trie.OpsProofs Trie.Canon.
 From GV Require Import Trie.Stack Trie.StackProofs Trie.Proof Trie.ProofProofs Trie.Range.
@@ -3205,3 +3218,101 @@ Section NoEmptyRange.
     - inversion Hp as [| |t0 e Hw| |]; subst. inversion Hw.
   Qed.
 End NoEmptyRange.
+
+(* acceptance, a root mismatch, or a MissingNodeError during re-insertion *)
+Definition honest_outcome (x : rr bool) : Prop :=
+  (exists b, x = Rok b) \/ x = Rerr RRoot \/ x = Rerr RMissingNode.
+
+Section HonestPartial.
+  Variable H : list N -> list N.
+  Hypothesis H_len : forall x, length (H x) = 32%nat.
+  Variable db : pdb.
+  Variable P : list N -> Prop.
+  Hypothesis faithful : forall e b, P e -> db_get db (H e) = Some b -> b = e.
+  Variable t : node.
+  Variable r : list N.
+  Hypothesis Hcan : can t.
+  Hypothesis Hok : content_ok t.
+  Hypothesis Hroot : hash_root H t = Some r.
+  Hypothesis HP : forall e, genuine H t e -> P e.
+
+  (* range_complete_honest, the part that is proved: a well-formed response whose last key is
+     a key of the trie and whose two edge paths are present in the database passes the batch
+     checks, both proofToPath calls and unsetInternal; it can only end in acceptance, in a
+     MissingNodeError during re-insertion or in a root mismatch.  (For the genuinely honest
+     response - the run IS the content of [firstKey, lastKey] - the last two cannot happen
+     either: NOT PROVED, see Properties/C09.v.) *)
+  Theorem range_complete_honest_partial first last keys values Lb :
+    keys_fixed t Lb -> (0 < Lb)%nat -> N.of_nat Lb < 2 ^ 30 ->
+    length first = Lb -> forallb byteb first = true ->
+    Forall (fun k => length k = Lb /\ forallb byteb k = true) keys -> Forall small values ->
+    length keys = length values -> sorted keys -> Forall (fun v => v <> []) values ->
+    last_opt keys = Some last ->
+    (forall k0, hd_error keys = Some k0 -> slice_lt k0 first = false) ->
+    slice_lt first last = true ->
+    (exists v, lk t (keybytes_to_hex last) = Some v) ->
+    db_get db r <> None ->
+    ~ missing_on H db t (keybytes_to_hex first) -> ~ missing_on H db t (keybytes_to_hex last) ->
+    honest_outcome (verify_range_proof H r first keys values (Some db)).
+  Proof.
+    intros Hfix HL0 HLs Hlf Hbf HK HV El Hsorted Hne Hlast Hfirst Hlt [vl Lvl] Hr Hm1 Hm2.
+    assert (O1 : forall b, honest_outcome (Rok b)) by (intros b; left; eauto).
+    assert (O2 : honest_outcome (Rerr RRoot)) by (right; left; reflexivity).
+    assert (O3 : honest_outcome (Rerr RMissingNode)) by (right; right; reflexivity).
+    pose proof (can_pwf t Hcan Hok) as Hw.
+    assert (HKl : Forall (fun k => length k = Lb) keys) by (eapply Forall_impl; [|exact HK]; intros k [? _]; assumption).
+    assert (Hlin : In last keys) by (apply last_opt_in; exact Hlast).
+    assert (Hll : length last = Lb /\ forallb byteb last = true) by (rewrite Forall_forall in HK; apply HK; exact Hlin).
+    destruct Hll as [Hll Hbl].
+    unfold verify_range_proof. rewrite El, Nat.eqb_refl. cbn [negb].
+    assert (C : check_run keys values = None) by (apply (check_run_spec Lb keys values HKl El); auto).
+    rewrite C. destruct keys as [|k0 kr]; [discriminate|]. destruct values as [|v0 vr]; [discriminate|].
+    rewrite (Hfirst k0 eq_refl), Hlast.
+    assert (Hbr : bytes_eqb first last = false).
+    { destruct (bytes_eqb first last) eqn:B; [|reflexivity]. apply bytes_eqb_eq in B. subst last.
+      rewrite slice_lt_irrefl in Hlt. discriminate. }
+    rewrite Hbr, andb_false_r, Hlt. cbn [negb]. rewrite Hlf, Hll, Nat.eqb_refl. cbn [negb].
+    destruct (ptp_root H H_len db P faithful t r Hcan Hok Hroot HP first true Hbf) as [[G _]|[_ Q1]]; [congruence|].
+    destruct (proof_to_path db r None first true) as [[root1 val1]|e1]; cbn [ptp_post] in Q1.
+    2: { exfalso. destruct Q1 as [[_ M]|(_ & A & _)]; [exact (Hm1 M)|discriminate]. }
+    destruct Q1 as (Pv1 & In1 & _ & Rs1 & _).
+    unfold proof_to_path at 1. cbv zeta.
+    pose proof (ptp_spec H H_len db P faithful _ root1 t (keybytes_to_hex last) true Pv1 Hw In1
+                  (keybytes_to_hex_valid _ Hbl) (ptp_fuel_ok _ db) HP) as Q2.
+    destruct (ptp (ptp_fuel (keybytes_to_hex last) db) db true root1 (keybytes_to_hex last)) as [[root2 val2]|e2] eqn:E2;
+      cbn [ptp_post] in Q2.
+    2: { exfalso. destruct Q2 as [[_ M]|(_ & A & _)]; [exact (Hm2 M)|discriminate]. }
+    destruct Q2 as (Pv2 & In2 & _ & Rs2 & _).
+    pose proof (ptp_res_mono _ _ _ _ _ _ _ E2 _ Rs1) as Rs1'.
+    destruct (unset_internal_progress H H_len t root2 (keybytes_to_hex first) (keybytes_to_hex last) Hcan Pv2 Rs1' Rs2)
+      as [(act & E3 & _)|E3].
+    { rewrite hex_length, Hlf. apply keys_fixed_ulen. exact Hfix. }
+    { rewrite !hex_length. lia. }
+    { apply keybytes_to_hex_valid; exact Hbf. }
+    { apply keybytes_to_hex_valid; exact Hbl. }
+    { rewrite slice_lt_hex; auto. lia. }
+    2: { exfalso. exact (no_empty_range H t _ _ _ _ Pv2 Lvl E3). }
+    rewrite E3.
+    destruct (unset_internal_sim H _ _ _ _ _ Pv2 E3) as (act' & E3' & Hact).
+    pose proof (pvact_node H _ _ Hact) as Pv3.
+    change (match act with URemove => NEmpty | UKeep r0 => r0 end) with (act_node act).
+    assert (Hs1 : act_node act' = NEmpty \/ pwf (act_node act')).
+    { destruct (unset_internal_pwf _ _ _ _ Hw E3') as [->|(s' & -> & Hs')]; [left; reflexivity|right; exact Hs']. }
+    assert (HKs : Forall (fun k => forallb byteb k = true /\ small (keybytes_to_hex k)) (k0 :: kr)).
+    { eapply Forall_impl; [|exact HK]. intros k [Hk1 Hk2]. split; [exact Hk2|].
+      unfold small, lenN. rewrite hex_length, Hk1. lia. }
+    assert (HVs : Forall val_ok (v0 :: vr)).
+    { rewrite Forall_forall in HV, Hne |- *. intros v Hv. split; [apply Hne; exact Hv|apply HV; exact Hv]. }
+    destruct (reinsert_full_ex (k0 :: kr) (v0 :: vr) _ Hs1 El HKs HVs) as (s3 & E4' & Hs3).
+    destruct (reinsert_sim_conv H H_len (k0 :: kr) (v0 :: vr) _ _ _ Pv3 Hne E4') as [(root3 & E4 & Pv4)|E4]; rewrite E4;
+      [|exact O3].
+    rewrite (hash_root_pv' H H_len _ _ Pv4 Hs3).
+    assert (Hh : exists h, hash_root H s3 = Some h).
+    { destruct Hs3 as [->|Hw3]; [eexists; reflexivity|].
+      destruct (pwf_enc_total H H_len s3 Hw3) as [e Ee]. rewrite (pwf_hash_root H s3 e Hw3 Ee). eauto. }
+    destruct Hh as [h ->]. destruct (negb (bytes_eqb h r)); [exact O2|].
+    pose proof (reinsert_res _ _ _ _ _ Hne E4 Hlast) as Rs3.
+    destruct (has_right_total H s3 root3 (keybytes_to_hex last) Pv4) as [b Eb]; [|exact Rs3|rewrite Eb; apply O1].
+    destruct Hs3 as [->|Hw3]; [left; reflexivity|right; right]. split; [exact Hw3|apply keybytes_to_hex_valid; exact Hbl].
+  Qed.
+End HonestPartial.
